@@ -170,7 +170,7 @@ def constructor(chk):
         for mode, table in (("degree", deg_t), ("size", npt_t)):
             keys = sorted(table)
             kmax = keys[-1]
-            for cache in (True, False):
+            for cache in ((True, False) if mode == "degree" else (False,)):      # the cache is keyed by the resolved degree: one request mode suffices for the hit route
                 tag = f"init/{method}/by-{mode}/cache-{'on' if cache else 'off'}"
 
                 def thunk(eng_, mode=mode, cache=cache, kmax=kmax, spelled=spelled):
